@@ -1184,3 +1184,24 @@ Section Loop.
   Lemma pushed_seq_u32 l m : parse_opt type_of l = Some m -> (a_seq m < 4294967296)%N.
   Proof. intros H. apply parse_opt_some in H. apply (parse_log_line_ranges type_of l m H). Qed.
 End Loop.
+
+(* ------------------------------------------------------------------ the record as auditd prints it *)
+
+(* "type=" T " msg=audit(" sec "." msec (three digits, zero padded) ":" seq ")" b "\n"  with the numbers in plain
+   decimal: exactly those values come back, and RawData is the text from "audit(" on without the newline *)
+Theorem wf_decimal_line_parses (type_of : str -> option N) T t sec msec sq b :
+  ~ In c_eq T -> get_type type_of T = TyOk t ->
+  (sec < 2 ^ 63)%N -> (msec < 2 ^ 63)%N -> (sq < 2 ^ 32)%N -> clean_end b ->
+  parse_log_line type_of (type_token ++ T ++ c_sp :: msg_token ++ header_text (dec sec) (dec3 msec) (dec sq) ++ b ++ ["010"%char])
+  = POk (mkMsg t (Z.of_N sec) (Z.of_N msec) sq (index_of_message (c_rparen :: b))
+               (header_text (dec sec) (dec3 msec) (dec sq) ++ b)).
+Proof.
+  intros Hn HT H1 H2 H3 Hb.
+  destruct (dec_spec sec) as (A1 & A2 & A3). destruct (dec3_spec msec) as (B1 & B2 & B3).
+  destruct (dec_spec sq) as (C1 & C2 & C3).
+  apply (wf_type_line_parses type_of T t [] (dec sec) (dec3 msec) (dec sq) (Z.of_N sec) (Z.of_N msec) sq b ["010"%char] Hn HT eq_refl eq_refl).
+  - rewrite <- A3 at 2. apply parse_int_digits; try assumption; [lia|rewrite A3; exact H1].
+  - rewrite <- B3 at 2. apply parse_int_digits; try assumption; [lia|rewrite B3; exact H2].
+  - rewrite <- C3 at 2. apply parse_uint_digits; try assumption; [lia|rewrite C3; exact H3].
+  - exact Hb.
+Qed.
